@@ -5,6 +5,7 @@ import (
 	"fmt"
 	"os"
 	"sort"
+	"strings"
 
 	defn "github.com/named-data/ndnd/fw/defn"
 	"github.com/named-data/ndnd/fw/face"
@@ -23,6 +24,7 @@ func replayFile(path string) int {
 		Replay      struct {
 			Enumeration string
 			Mtu, Size   int
+			MtuBefore   int `json:"mtu_before"`
 			Config      string
 			Sizes       []int
 			Shape       []int
@@ -39,8 +41,24 @@ func replayFile(path string) int {
 	switch r.Enumeration {
 	case "A":
 		var c *cfg
+		change := 0
+		var feats []string
+		for _, f := range strings.Split(r.Config, ",") {
+			switch f {
+			case "SetMTU(raised-on-live-face)":
+				change = 1
+			case "SetMTU(lowered-on-live-face)":
+				change = 2
+			default:
+				feats = append(feats, f)
+			}
+		}
+		want := strings.Join(feats, ",")
+		if want == "" {
+			want = "baseline"
+		}
 		for _, x := range append(allCfgs(false), viaCfgs()...) {
-			if x.String() == r.Config {
+			if x.String() == want {
 				x := x
 				c = &x
 			}
@@ -49,8 +67,14 @@ func replayFile(path string) int {
 			fmt.Printf("CHECK-ERROR: unknown configuration %q or size %d\n", r.Config, r.Size)
 			return 2
 		}
-		p := newPair(ctx, r.Mtu, *c)
+		c.mtuChange = change
 		var st caseStats
+		var p *pair
+		if r.MtuBefore > 0 {
+			p = newPairChanged(ctx, r.MtuBefore, r.Mtu, *c, &st)
+		} else {
+			p = newPair(ctx, r.Mtu, *c)
+		}
 		p.runCase(r.Size, &st)
 		for i, f := range p.stx.VerifFrames() {
 			v, e := scanFrame(f)
